@@ -454,6 +454,18 @@ func (l *Lexer) scanCommodityOrText() Token {
 		return Token{Type: TokenCommodity, Value: value, Pos: startPos, End: l.position()}
 	}
 
+	// a word after a number that is followed by a cost or an assertion is the
+	// amount's commodity (12 hours @ $50): it must not swallow the rest of the line
+	if followsAmount && value != "" {
+		next := l.pos
+		for next < len(l.input) && l.input[next] == ' ' {
+			next++
+		}
+		if next < len(l.input) && (l.input[next] == '@' || l.input[next] == '=') {
+			return Token{Type: TokenText, Value: value, Pos: startPos, End: l.position()}
+		}
+	}
+
 	l.pos = start
 	l.column = startPos.Column
 	return l.scanText()
